@@ -121,6 +121,28 @@ theorem chipView_foldl_cards (cs : List Card) (s : State) :
   rw [chipView_foldl_cards]
   split <;> rfl
 
+section fields
+variable (s : State) (env : Env) (cs : List Card)
+@[simp] theorem consumeCards_stacks : (s.consumeCards env cs).stacks = s.stacks :=
+  congrArg (·.1) (chipView_consumeCards s env cs)
+@[simp] theorem consumeCards_bets : (s.consumeCards env cs).bets = s.bets :=
+  congrArg (·.2.1) (chipView_consumeCards s env cs)
+@[simp] theorem consumeCards_payoffs : (s.consumeCards env cs).payoffs = s.payoffs :=
+  congrArg (·.2.2.1) (chipView_consumeCards s env cs)
+@[simp] theorem consumeCards_pots : (s.consumeCards env cs).pots_ = s.pots_ :=
+  congrArg (·.2.2.2.1) (chipView_consumeCards s env cs)
+@[simp] theorem consumeCards_subPots : (s.consumeCards env cs).subPots = s.subPots :=
+  congrArg (·.2.2.2.2.1) (chipView_consumeCards s env cs)
+@[simp] theorem consumeCards_runoutCount : (s.consumeCards env cs).runoutCount = s.runoutCount :=
+  congrArg (·.2.2.2.2.2) (chipView_consumeCards s env cs)
+@[simp] theorem produceCards_stacks : (s.produceCards cs).stacks = s.stacks := rfl
+@[simp] theorem produceCards_bets : (s.produceCards cs).bets = s.bets := rfl
+@[simp] theorem produceCards_payoffs : (s.produceCards cs).payoffs = s.payoffs := rfl
+@[simp] theorem produceCards_pots : (s.produceCards cs).pots_ = s.pots_ := rfl
+@[simp] theorem produceCards_subPots : (s.produceCards cs).subPots = s.subPots := rfl
+@[simp] theorem produceCards_runoutCount : (s.produceCards cs).runoutCount = s.runoutCount := rfl
+end fields
+
 theorem chipView_muckHoleCards {s s' : State} {i : Nat} (h : s.muckHoleCards i = .ok s') :
     chipView s' = chipView s := by
   unfold State.muckHoleCards at h
@@ -140,26 +162,42 @@ macro "ledger_leaf" h:ident : tactic => `(tactic|
 macro "ledger_generic" h:ident : tactic => `(tactic|
   (simp only []; (repeat' split) <;> ledger_leaf $h))
 
-set_option maxHeartbeats 1000000 in
-theorem ledger_step_probe (m : M) (h : Ledger cfg m.st) : Ledger cfg (step cfg env m).st := by
-  unfold step
-  split
-  · exact h
-  · rename_i f rest hctl
-    cases f
-    case opPostAnte i =>
-      simp only []
-      split
-      · exact h
-      · rename_i p hp
-        split
-        · exact h
-        · split
-          · exact h
-          · rename_i hb hst
-            simp only [cont_st]
-            refine h.transfer' p (effectiveAnte cfg p) ?_ ?_ rfl ?_ rfl rfl rfl rfl
-            · intro _; simp at hst; omega
-            · intro hp'; have := h.nonnegBets p hp'; simp at hst; omega
-            · simp at hb; simp [hb]
-    all_goals try ledger_generic h
+/-! ### facts extracted from the verifiers -/
+
+theorem actorIndex_cons {s : State} {p : Nat} {rest : List Nat} (ha : s.actors = p :: rest)
+    {q : Option Nat} (h : s.actorIndex = .ok q) : q = some p := by
+  unfold State.actorIndex at h
+  rw [ha] at h
+  simp only at h
+  split at h <;> cases h
+  rfl
+
+theorem callAmount_spec {s : State} {amount : Int} {p : Nat} {rest : List Nat}
+    (h1 : s.checkingOrCallingAmount = .ok (some amount)) (h2 : s.actors = p :: rest) :
+    amount = min (getI s.stacks p) (maxI s.bets - getI s.bets p) := by
+  unfold State.checkingOrCallingAmount at h1
+  split at h1
+  · cases h1
+  · split at h1
+    · cases h1
+    · cases h1
+    · rename_i q hq
+      have := actorIndex_cons h2 hq
+      cases this
+      cases h1; rfl
+
+theorem bringInAmount_spec {cfg : Config} {s : State} {amount : Int} {p : Nat} {rest : List Nat}
+    (h1 : s.effectiveBringInAmount cfg = .ok (some amount)) (h2 : s.actors = p :: rest) :
+    amount = min (getI s.stacks p) cfg.bringIn := by
+  unfold State.effectiveBringInAmount at h1
+  split at h1
+  · cases h1
+  · split at h1
+    · cases h1
+    · cases h1
+    · rename_i q hq
+      have := actorIndex_cons h2 hq
+      cases this
+      cases h1; rfl
+
+end PK
